@@ -221,6 +221,11 @@ func (tw *timeoutWriter) writeHeaderLocked(code int) {
 				caller.Function, path.Base(caller.File), caller.Line)
 		}
 	default:
+		// informational responses are not the status of the response, the final one is still to come
+		if code >= 100 && code <= 199 && code != http.StatusSwitchingProtocols {
+			return
+		}
+
 		tw.wroteHeader = true
 		tw.code = code
 	}
